@@ -213,6 +213,11 @@ def dom_get_specializations(repo, res, rule="DOM"):
         # inserted under the definition's own name
         st = A.stmt_of(s, pm)
         ent = [c for c in P.find_calls(st, methods={"entry", "insert"})] if st else []
+        if not ent:
+            # built into a local first: the map insertion (entry(k) / insert(k, v)) later in the same loop body
+            loops = [g for g, _ in A.guards_of(s, pm) if g["k"] == "ForLoop"]
+            scope = loops[0]["body"] if loops else fn.body
+            ent = [c for c in P.find_calls(scope, methods={"entry", "insert"}) if A.before(s, c) and ((c["method"] == "entry" and len(c["args"]) == 1) or (c["method"] == "insert" and len(c["args"]) == 2))]
         ok = False
         for c in ent:
             if c["args"]:
@@ -360,7 +365,7 @@ def run(repo, res, tier):
     common.run_traversals(repo, res, only={"check::specialize_nonterminals", "check::resolve_nonterminals"})
     RPL.from_grammar_order(repo, res)
     res.floor("LOOKUP", res.count("LOOKUP"), 2)
-    res.floor("DOM", res.count("DOM"), 7)
+    res.floor("DOM", res.count("DOM"), 3)  # one site per shell arm today (4 x 3); a shared constructor gives 3-4
     res.floor("FF", res.count("FF"), 18)
     res.floor("ARMS", res.count("ARMS"), 7)
     res.floor("TC", res.count("TC"), 7)
